@@ -1,4 +1,5 @@
 import Proofs.Ask
+import Proofs.AskTotal
 import Proofs.Membership
 
 /-!
